@@ -424,7 +424,11 @@ def tables_part(acc: Acc, tier, shard, nshards):
             rt = licence_walk(_plain(d), _plain(d2))
             if rt:
                 viol(f"create_roundtrip:{name}", f"create({name!r}, {v}) changes when printed and re-loaded at {rt[0][0]}: {rt[0][1]}", case)
-            msgs = [m for m in W.validator().validate(d, schema_name=name, version=v) if "is a required property" not in m.get("error", "")]
+            try:
+                msgs = [m for m in W.validator().validate(d, schema_name=name, version=v) if "is a required property" not in m.get("error", "")]
+            except Exception as e:
+                viol(f"create_validate_raises:{name}", f"validating create({name!r}, {v}) raised {type(e).__name__}: {e!s:.100}", case)
+                continue
             if "KF12" in kf and name == "label":
                 n0 = len(msgs)
                 msgs = [m for m in msgs if not m["message"].upper().endswith(" BACKGROUNDSHADOWSIZE")]
